@@ -18,7 +18,7 @@ use std::time::{Duration, Instant};
 use log::{debug, trace, warn};
 use wincode::{SchemaRead, SchemaWrite};
 
-use crate::consensus::{DELTA, SharedBlockstore, SharedPool, ValidatorEpochInfo};
+use crate::consensus::{AddShredError, DELTA, SharedBlockstore, SharedPool, ValidatorEpochInfo};
 use crate::crypto::merkle::{DoubleMerkleProof, DoubleMerkleTree, SliceRoot};
 use crate::crypto::{Hash, hash};
 use crate::disseminator::rotor::{SamplingStrategy, StakeWeightedSampler};
@@ -473,7 +473,6 @@ where
                     warn!("repair response (Shred) with invalid Merkle proof or signature");
                     return;
                 };
-                self.outstanding_requests.remove(&request_hash);
 
                 // store shred
                 let res = self
@@ -482,6 +481,13 @@ where
                     .await
                     .add_shred_from_repair(block_hash.clone(), validated)
                     .await;
+                // the data/coding kind is not authenticated: a shred refused for its kind was
+                // not obtained, the request has to stay outstanding for a correct answer
+                if matches!(res, Err(AddShredError::WrongKind)) {
+                    warn!("repair response (Shred) with data/coding kind not matching its index");
+                    return;
+                }
+                self.outstanding_requests.remove(&request_hash);
                 if let Ok(Some(block_info)) = res {
                     assert_eq!(block_info.hash, *block_hash);
                     self.pool
